@@ -32,8 +32,11 @@ Affected(gr, f) == Owners(gr, f) \cup UNION {QTRdeps(gr, o) : o \in Owners(gr, f
 \* `grog changes --since=<ref>`: the targets owning a changed file, optionally with their transitive dependants (targets only)
 Changes(gr, f, transitive) == LET base == Owners(gr, f) IN
                               {n \in (IF transitive THEN Affected(gr, f) ELSE base) : ~IsAlias(gr, n)}
+\* ... filtered by --target-type after the dependants have been added (a changed library that is filtered out still brings its tests in)
+Tys == {"all", "test", "no_test"}
+ChangesTy(gr, f, transitive, ty) == {n \in Changes(gr, f, transitive) : TypeOKFor(gr, n, ty)}
 ChangesWithinAffected == \A f \in FilesQ : Changes(g, f, FALSE) \subseteq Changes(g, f, TRUE) /\ Changes(g, f, TRUE) \subseteq Affected(g, f)
-QGraphs == { x \in Graphs : x.tag = {} /\ x.plat = [n1 |-> "any", r |-> "any"] }
+QGraphs == { x \in Graphs : x.tag = {} /\ x.plat = [n1 |-> "any", r |-> "any"] /\ x.layout = "std" }
 \* one TLC state per query graph (the invocation component of Selection's state is irrelevant here)
 QInit == g \in QGraphs /\ inv = CHOOSE i \in Invocations : TRUE
 QSpec == QInit /\ [][Next]_<<g, inv>>
@@ -45,7 +48,7 @@ QExport ==
         rdeps |-> [n \in N |-> QRdeps(x, n)], trdeps |-> [n \in N |-> QTRdeps(x, n)],
         tests |-> x.test, aliases |-> {n \in N : IsAlias(x, n)},
         owners |-> [f \in FilesQ |-> Owners(x, f)], affected |-> [f \in FilesQ |-> Affected(x, f)],
-        changes |-> [f \in FilesQ |-> [direct |-> Changes(x, f, FALSE), transitive |-> Changes(x, f, TRUE)]],
+        changes |-> [f \in FilesQ |-> [direct |-> [ty \in Tys |-> ChangesTy(x, f, FALSE, ty)], transitive |-> [ty \in Tys |-> ChangesTy(x, f, TRUE, ty)]]],
         list |-> [k \in 1..Len(PatSeq) |-> [ty \in {"all", "test", "no_test"} |-> ListOf(x, PatSeq[k], ty)]] ] : x \in QGraphs }) ]
 CONSTANT QOutFile
 ASSUME QOutFile = "" \/ JsonSerialize(QOutFile, QExport)
